@@ -616,6 +616,19 @@ func init() {
 			}
 			panic(goPanic{"reflect: call of reflect.Value.Len on " + kindName(a[0].(RValue)) + " Value"})
 		},
+		"(reflect.Value).Slice": func(e *Exec, c *frame, a []Value) Value {
+			r := a[0].(RValue)
+			lo := int(sx(e.concretize(a[1].(*Term), 64), 64))
+			hi := int(sx(e.concretize(a[2].(*Term), 64), 64))
+			v, ok := r.V.([]Value)
+			if !ok {
+				panic(abort(fmt.Sprintf("(reflect.Value).Slice of %T", r.V)))
+			}
+			if lo < 0 || hi < lo || hi > cap(v) {
+				panic(goPanic{"reflect.Value.Slice: slice index out of bounds"})
+			}
+			return RValue{T: r.T, V: v[lo:hi]} // shares the cells, as the real one does
+		},
 		"(reflect.Value).Index": func(e *Exec, c *frame, a []Value) Value {
 			r := a[0].(RValue)
 			i := int(sx(e.concretize(a[1].(*Term), 64), 64))
